@@ -33,6 +33,8 @@ type Scenario struct {
 	Target  string `json:"target"`  // where the re-entrant Send goes: other (a plain pipeline), self (the same pipeline / filter), none (no pipeline)
 	Parked  bool   `json:"parked"`  // a writer is started while the callback runs and the callback waits for it to be parked
 	Depth   int    `json:"depth"`   // recursion depth of re-entrant Sends from Process
+	Types   int    `json:"types,omitempty"` // failing-nodes: event types (1..3)
+	Pipes   int    `json:"pipes,omitempty"` // failing-nodes: pipelines per type (1..2)
 	InStmt  bool   `json:"in_statement"` // false: outside C12's statement -- observed only (no scenario is any more)
 	Comment string `json:"comment,omitempty"`
 }
@@ -43,6 +45,7 @@ type Result struct {
 	TimedOut  bool     `json:"timed_out"`
 	Reentries int      `json:"reentries"` // how many times a callback actually re-entered the Broker
 	Panic     string   `json:"panic,omitempty"`
+	Wrong     string   `json:"wrong_result,omitempty"` // a call returned, but with an error although nothing failed / without one although something did
 	Dump      string   `json:"goroutine_dump,omitempty"`
 	FailedOp  string   `json:"failed_op,omitempty"`
 }
@@ -103,6 +106,25 @@ func (p *plain) Process(ctx context.Context, e *el.Event) (*el.Event, error) {
 }
 func (p *plain) Reopen() error     { return nil }
 func (p *plain) Type() el.NodeType { return p.typ }
+
+// a node whose Reopen / Close fails
+type failing struct {
+	plain
+	reopenErr, closeErr bool
+}
+
+func (f *failing) Reopen() error {
+	if f.reopenErr {
+		return fmt.Errorf("reopen failed")
+	}
+	return nil
+}
+func (f *failing) Close(ctx context.Context) error {
+	if f.closeErr {
+		return fmt.Errorf("close failed")
+	}
+	return nil
+}
 
 // re-enters Send from Process / Close / Reopen
 type reent struct {
@@ -299,6 +321,72 @@ func runScenario(sc Scenario, watchdog, parkDelay time.Duration) Result {
 			ok = r.step(sc.Op, func() error { return otherOp(b, sc.Op) })
 			if ok {
 				ok = r.step("Send(outer) in flight returns", func() error { <-inflight; return nil })
+			}
+		}
+	case "failing-nodes":
+		// k failing nodes (sc.Groups) spread over sc.Types event types with sc.Pipes pipelines each: Reopen, and the calls that
+		// close nodes, must return whatever the nodes answer, with an error iff a node involved in the call failed
+		type pl struct {
+			t    el.EventType
+			id   el.PipelineID
+			fail bool
+			node el.NodeID
+		}
+		var pls []pl
+		for ti := 0; ti < sc.Types; ti++ {
+			for pi := 0; pi < sc.Pipes; pi++ {
+				pls = append(pls, pl{t: el.EventType(fmt.Sprintf("ft%d", ti)), id: el.PipelineID(fmt.Sprintf("fp%d", pi))})
+			}
+		}
+		// failing nodes go to different event types first
+		placed := 0
+		for pi := 0; pi < sc.Pipes && placed < sc.Groups; pi++ {
+			for ti := 0; ti < sc.Types && placed < sc.Groups; ti++ {
+				pls[ti*sc.Pipes+pi].fail = true
+				placed++
+			}
+		}
+		for i := range pls {
+			n := el.NodeID(fmt.Sprintf("fn%d", i))
+			pls[i].node = n
+			must(b.RegisterNode(n, &failing{plain: plain{typ: el.NodeTypeFilter}, reopenErr: pls[i].fail && sc.Op == "Reopen", closeErr: pls[i].fail && sc.Op != "Reopen"}))
+			must(b.RegisterNode(n+"-fmt", &plain{typ: el.NodeTypeFormatter}))
+			must(b.RegisterNode(n+"-sink", &plain{typ: el.NodeTypeSink}))
+			must(b.RegisterPipeline(el.Pipeline{PipelineID: pls[i].id, EventType: pls[i].t, NodeIDs: []el.NodeID{n, n + "-fmt", n + "-sink"}}))
+		}
+		expect := func(what string, err error, want bool) error {
+			if (err != nil) != want && res.Wrong == "" {
+				res.Wrong = fmt.Sprintf("%s: error = %v, but %d node(s) involved failed", what, err, map[bool]int{true: 1, false: 0}[want])
+			}
+			return nil
+		}
+		switch sc.Op {
+		case "Reopen":
+			ok = r.step("Reopen", func() error { return expect("Reopen", b.Reopen(ctx), placed > 0) })
+			if ok {
+				ok = r.step("Reopen (again)", func() error { return expect("Reopen", b.Reopen(ctx), placed > 0) })
+			}
+		case "RemovePipelineAndNodes":
+			for i := range pls {
+				if !ok {
+					break
+				}
+				p := pls[i]
+				ok = r.step(fmt.Sprintf("RemovePipelineAndNodes(%s,%s)", p.t, p.id), func() error {
+					_, err := b.RemovePipelineAndNodes(ctx, p.t, p.id)
+					return expect("RemovePipelineAndNodes", err, p.fail)
+				})
+			}
+		case "RemoveNode":
+			for i := range pls {
+				if !ok {
+					break
+				}
+				p := pls[i]
+				ok = r.step(fmt.Sprintf("RemovePipeline(%s,%s)", p.t, p.id), func() error { return b.RemovePipeline(p.t, p.id) })
+				if ok {
+					ok = r.step(fmt.Sprintf("RemoveNode(%s)", p.node), func() error { return expect("RemoveNode", b.RemoveNode(ctx, p.node), p.fail) })
+				}
 			}
 		}
 	case "parked-process":
@@ -532,6 +620,18 @@ func allScenarios(r *hc.Rand, repeat int) []Scenario {
 					}
 				}
 			}
+			// failing nodes: 0..3 of them over 1..3 event types x 1..2 pipelines per type, for Reopen and for the calls that close nodes
+			if !parked {
+				for _, op := range []string{"Reopen", "RemovePipelineAndNodes", "RemoveNode"} {
+					for types := 1; types <= 3; types++ {
+						for pipes := 1; pipes <= 2; pipes++ {
+							for k := 0; k <= 3 && k <= types*pipes; k++ {
+								add(Scenario{Kind: "failing-nodes", Op: op, Groups: k, Types: types, Pipes: pipes, Target: "other"})
+							}
+						}
+					}
+				}
+			}
 			// pairs of operations against each other
 			if !parked {
 				for _, pr := range []string{"SetSuccessThreshold|SuccessThreshold", "SetSuccessThresholdSinks|SuccessThresholdSinks", "Send|SetSuccessThreshold",
@@ -667,6 +767,9 @@ func main() {
 		}
 		if res.Panic != "" {
 			panics++
+		}
+		if res.Wrong != "" {
+			stats["wrong_results"]++
 		}
 	}
 	f.Close()
